@@ -11,7 +11,7 @@ From Coq Require Import List NArith Bool Strings.Byte.
 From Sftp Require Import Base.GoSem Wire.Prim Wire.Packets Path.Clean Err.Status Srv.ReadOnly Srv.OpenFlags
                          Proofs.CleanP Proofs.StatusP Proofs.OpenFlagsP Fs.Tree Proofs.TreeP.
 Import ListNotations.
-From Sftp Require Proofs.TreeRenameP.
+From Sftp Require Proofs.TreeRenameP Proofs.TreeWalkP.
 Open Scope N_scope.
 
 (* ok / not-exist / permission / EOF / other failure: the category of every error package os can return, bare or inside
@@ -201,3 +201,22 @@ Example C05_rename_nonvacuous :
   FsTree.p_rename t [5]%nat [1; 4; 9]%nat = None /\
   FsTree.p_link t [1; 4]%nat [8]%nat = Some (FsTree.TOk, t ++ [([8], FsTree.KLink)])%nat.
 Proof. vm_compute. repeat split; reflexivity. Qed.
+
+(* ---- Client.Walk (the kr/fs walker over LSTAT and READDIR) against filepath.Walk's specification: for every well-formed tree
+   and every path in it, the traversal returns the root and exactly the entries below it (none lost, none invented: links and
+   files are leaves, only directories are descended into), each of them once. The ORDER of a walk is the file system's directory
+   order on the served side and lexical on package os's side: not part of the model. ---- *)
+Theorem C05_walk_refines_filepath_walk : forall t p k, FsTree.wf t -> p <> [] -> FsTree.kind_at t p = Some k ->
+  forall e, In e (FsTree.c_walk (S (FsTreeP.cnt t p)) t p k) <-> In e (FsTree.spec_walk t p k).
+Proof. exact TreeWalkP.walk_refines_spec. Qed.
+Print Assumptions C05_walk_refines_filepath_walk.
+
+Theorem C05_walk_visits_each_entry_once : forall fuel t p k, FsTree.wf t -> p <> [] -> FsTree.kind_at t p = Some k ->
+  (FsTreeP.cnt t p < fuel)%nat -> NoDup (map fst (FsTree.c_walk fuel t p k)).
+Proof. exact TreeWalkP.walk_once. Qed.
+Print Assumptions C05_walk_visits_each_entry_once.
+
+Example C05_walk_nonvacuous :
+  let t := [([1], FsTree.KDir); ([1; 2], FsTree.KDir); ([1; 2; 3], FsTree.KFile); ([1; 4], FsTree.KLink); ([5], FsTree.KFile)]%nat in
+  FsTree.c_walk 5 t [1]%nat FsTree.KDir = [([1], FsTree.KDir); ([1; 2], FsTree.KDir); ([1; 2; 3], FsTree.KFile); ([1; 4], FsTree.KLink)]%nat.
+Proof. vm_compute. reflexivity. Qed.
